@@ -221,7 +221,7 @@ class _ConfusionMatrix:
     if average is None or average in ('micro', 'binary'):
       return result
     elif average == 'macro':
-      return np.mean(result, axis=0)
+      return np.mean(result, axis=-1)
     else:
       raise NotImplementedError(f'"{average}" average is not supported.')
 
